@@ -1,5 +1,7 @@
 """C17 — access-guarding file directives hold whatever the cache contains."""
 import ipaddress
+import json
+import os
 import re
 
 from kv import Case, xn, xb, xl, xlist, xbool, xparse, xtext
@@ -8,80 +10,135 @@ import pipe
 
 ID = "C17"
 MODULE = "C17"
-IMPORTS = "PathSan PresentLine Guards GuardsProofs"
+IMPORTS = "PathSan PresentLine CacheX Guards GuardsProofs"
 PROFILES = ("dev",)
 PER_SHARD = 12
 KERNEL_SAMPLE = 12
-THEOREMS = [
-    ("guarded_content_confined",
-     "forall (fs : bytes -> option bytes) (errpage : N -> bytes) (secret : bytes), "
-     "(forall t c, fs t = Some c -> contains_sub secret c = true -> guarded t c = true) -> "
-     "(forall s, contains_sub secret (errpage s) = false) -> "
-     "(forall s, PresentLine.present_parse (errpage s) = Ok None) -> "
-     "forall cache_on ims_on parse_ims prime refuses vary_tuple vary_header now ops, "
-     "Forall2 (reply_ok fs secret prime) ops (run_g true true fs errpage cache_on ims_on parse_ims prime refuses vary_tuple vary_header [] now ops)"),
-    ("reply_ok_meaning",
-     "forall fs secret prime r0 rp lg, reply_ok fs secret prime (OReq r0) (ObReply rp lg) -> let r := prime r0 in "
-     "contains_sub secret (rp_body rp) = true \\/ contains_sub secret (rp_identity rp) = true -> "
-     "exists t c, served_file (rq_path r) = Ok (Some t) /\\ fs t = Some c /\\ is_private t = false /\\ "
-     "has_name N_HIDE (entries_of c) = false /\\ has_name N_ALLOW (entries_of c) = true /\\ listed (rq_addr r) (entries_of c) = true"),
-    ("range_of_clean_body_clean", "forall secret lo hi body, contains_sub secret (slice lo hi body) = true -> contains_sub secret body = true"),
-    ("spelling_decodes", "forall mask d, Forall (fun c => c < 256) d -> mask_ok mask d = true -> "
-     "PathSan.percent_decode (pct_encode mask d) = d"),
-    ("ext_lookup_spelling_independent", None),
-    ("allow_ips_never_stored", None),
-    ("guarded_answer_is_404", None),
-    ("private_spelling_v0_refuted", None),
-    ("cache_directive_v0_refuted", None),
-    ("violates_contradicts_confined", "forall fs secret ops obs, violates fs secret ops obs -> ~ Forall2 (reply_ok fs secret (fun r => r)) ops obs"),
-]
-RULE = ("histories of requests against the real kvarn::handle_cache in process (host = Extensions::empty() or, for a third of the scenarios, "
-        "Extensions::new() [default Prime 'Expand . and /': /e/ -> /e/index.html, /r. -> /r.html], + kvarn_extensions::mount_all, "
-        "fixture files written to a fresh directory, chosen client address per request) vs. the extracted Coq model (correspondence: status, "
-        "cache-control, last-modified presence, decoded body, identity body per request). Fixture files carry a marker SECRET:<file>:<nonce> "
-        "after their first line; files: *.private (also in a sub-directory), '!> hide', '!> allow-ips <list>' with and without '&> cache ...' "
-        "before/after it, two allow-ips directives, allow-ips + hide, CRLF line ends, near-miss address texts (10.0.0.11 vs 10.0.0.1, leading "
-        "zeros, /32, ::ffff:10.0.0.1, 3 or 5 groups), unguarded controls (x.PRIVATE, .private, plain). Histories: listed address first, then "
-        "other addresses, per spelling; spellings = percent-encoding of a subset of the characters of the path (exhaustive scenarios: all 2^k "
-        "subsets of the last k = min(n, 8..9) characters - at least the whole '.private' suffix - for one private, one allow-ips and one hide file in "
-        "rotation; either hex case), plus structural variants (trailing '/', '/.', '//', '%00', '%ff', encoded '/'); GET/HEAD/POST, "
-        "Range (satisfiable, unsatisfiable), Accept-Encoding, queries, vary rules on the raw path (variant push), response cache and file cache "
-        "on/off. Oracles: (1) spec component guards.spec (Gallina [permitted_b]): a SECRET marker in a body => permitted for exactly that file; "
-        "(2) model-independent Python oracle with its own line/address parser (ipaddress module). "
+_PINS = json.load(open(os.path.join(os.path.dirname(os.path.abspath(__file__)), "pins", "C17.json")))
+# every statement is pinned (driver/props/pins/C17.json, written by tools/mkpins.py after a REVIEWED change): the audit
+# compiles `Check (name : pinned statement)` for each, so weakening Properties/C17.v is reported
+_NAMES = ("guarded_content_confined", "reply_ok_meaning", "range_of_clean_body_clean", "ranged_reply_confined", "spelling_decodes",
+          "ext_lookup_spelling_independent", "single_decode_only", "listed_is_exact", "address_families_disjoint",
+          "allow_ips_never_stored", "guarded_answer_is_404",
+          "refused_reply_is_404", "hidden_file_indistinguishable_from_absent", "error_page_line_v0_refuted",
+          "tmpl_names_guarded_file_refuted", "allow_404_template_refuted", "file_cache_transparent",
+          "guarded_content_confined_with_file_cache",
+          "private_spelling_v0_refuted", "cache_directive_v0_refuted", "violates_contradicts_confined")
+THEOREMS = [(n, _PINS[n]) for n in _NAMES]
+RULE = ("(1) guards.run: histories of requests against the real kvarn::handle_cache in process (host = Extensions::empty() or, for a third of the "
+        "scenarios, Extensions::new() [default Prime 'Expand . and /': /e/ -> /e/index.html, /r. -> /r.html; CORS denial route], + "
+        "kvarn_extensions::mount_all; fixture files written to a fresh directory: public/..., errors/404.html (plain, with a '!> ' line, CRLF, "
+        "'!> tmpl' template + templates/err), errors/416.html, errors/406.html; chosen client address per request: 10.0.x.y, any IPv4, any IPv6 "
+        "incl. IPv4-mapped and IPv4-compatible forms; stale and negative entries put into the real host.file_cache) vs. the extracted Coq model "
+        "(correspondence per request: status, decoded body, identity body, presence of cache-control, presence of last-modified except on 404). "
+        "Fixture files carry a marker SECRET:<file>:<nonce> after their first line; files: *.private (also in a sub-directory), '!> hide', "
+        "'!> allow-ips <list>' with IPv4 and IPv6 arguments (compressed, upper case, leading zeros, embedded IPv4; near misses: 10.0.0.11 vs "
+        "10.0.0.1, leading zeros, /32, brackets, zone, two '::', 9 groups), with and without '&> cache ...' / '&> download' before/after it, two "
+        "allow-ips directives, allow-ips + hide, CRLF line ends, unguarded controls (x.PRIVATE, .private, plain). Histories: a listed address "
+        "first, then other addresses (also carrying x-forwarded-for / forwarded / x-real-ip / client-ip ... = a listed address), per spelling; "
+        "then the same request for a path that does not exist (twin). Spellings = percent-encoding of a subset of the characters of the path "
+        "(exhaustive scenarios: all 2^k subsets of the last k = min(n, 8..9) characters for one private, one allow-ips and one hide file in "
+        "rotation; either hex case), plus spellings that do NOT denote the file (double encoding %252E, invalid escapes, %00, %C0%AE, ';x', "
+        "trailing '/', '/.', '//', encoded '/', case). GET/HEAD/POST, Range, Accept-Encoding, Origin, queries, If-Modified-Since, vary rules "
+        "(variant push), clear_page/clear_all, waits past a 1 s lifetime, response cache and file cache on/off. Oracles: (a) spec component "
+        "guards.spec (Gallina [permitted_b] over what the server holds): a SECRET marker in a body => permitted for exactly that file; (b) "
+        "model-independent Python oracle with its own line/address parser (ipaddress module); (c) refused-vs-absent twins, real against "
+        "real: same status, body, identity body - and the same cache-control / last-modified where nothing but hide / *.private marks the "
+        "file. (2) guards.wire: histories over loopback HTTP/1.1 connections served by kvarn::handle_connection with the chosen peer address "
+        "(what SendKind::send wrote: Range slices of guarded bodies, HEAD, 406, every header); the harness itself reports marker leaks, body "
+        "bytes after HEAD and any difference (status, every header but date, body) between a refused file and a path that does not exist; "
+        "the specified result is the empty list. (3) guards.push: a public HTML page that links every fixture file, fetched over TLS + HTTP/2 by "
+        "listed and not listed clients (IPv4, IPv6, loopback); every response kvarn_extensions::push PUSHES (its internal handle_cache request) "
+        "is judged by the marker oracle like an answer; at least two pushed responses per fetch or the case counts as not executed. "
         "distinct_nontrivial = distinct (scenario, outcome) pairs in which a listed address received guarded content and a later request was refused")
 ASSUMPTIONS = [
-    "the file system does not change during a history and has no links that give a guarded file a second name (fs is a function of the path text; "
-    "the fixture tree uses PathSan's resolution: ENOTDIR, empty and '.' components, '..')",
-    "error pages are the hard-coded ones: they carry no '!> ' line and no secret (theorem hypotheses errpage_plain / errpage_clean); a host whose "
-    "errors/404.html is a '!> tmpl' template is not modelled",
-    "Present extensions other than allow-ips, hide, cache, download (tmpl, nonce, user-supplied ones) are not on the modelled host",
-    "client addresses are IPv4 (10.0.x.y); an allow-ips argument that only parses as IPv6 never equals them",
-    "content negotiation is abstracted: bodies are compared after decoding content-encoding with standard decoders; a 406 carries the error page",
-    "sequential histories; moka as a finite map (C03's assumptions); Range is applied after handle_cache (C09) to a body this property already covers",
-    "a file named exactly '.private' (empty stem) is not '*.private' for Path::extension and is served",
+    "what the server holds for a path (file-cache entry, else disk) does not change during a history, and there are no links that give a "
+    "guarded file a second name (fs is a function of the path text; the fixture tree uses PathSan's resolution: ENOTDIR, empty and '.' "
+    "components, '..'); the file cache itself - any initial content, any fills - is covered by file_cache_transparent",
+    "the secret (any byte string) occurs in no error page and templates introduce no guarded content (hypotheses Herr_clean / Htmpl of "
+    "guarded_content_confined; error pages MAY carry a '!> ' line and be '!> tmpl' templates). A page whose '!> tmpl' argument names a guarded "
+    "file violates Htmpl: known class tmpl-names-guarded-file",
+    "refused_reply_is_404 assumes that no error page is a template (known class allow-ips-404-template-unrendered), that the status filter "
+    "drops 400 and 416 (the default does) and that override URIs of Prime extensions are internal ('/./...'); "
+    "hidden_file_indistinguishable_from_absent assumes error pages without a '!> ' line",
+    "Present extensions other than allow-ips, hide, cache, download, tmpl (nonce, user-supplied ones) are not on the modelled host; "
+    "Prepare extensions other than the CORS denial route neither",
+    "content negotiation is abstract in the theorems (any refusal function); in the model run nothing is refused: Accept-Encoding values that "
+    "refuse every coding are sent in the wire histories only; bodies are compared after decoding content-encoding with standard decoders",
+    "sequential histories; moka as a finite map (C03's assumptions); HTTP/2 push is not modelled: the pushed responses are judged by the "
+    "marker oracle only (guards.push)",
+    "a file named exactly '.private' (empty stem) is not '*.private' for Path::extension and is served; an allow-ips argument lists an "
+    "address only in the notations IpAddr::from_str accepts (no /32, no brackets, no zone); an IPv4 address equals no IPv6 address, not "
+    "even its mapped form (::ffff:a.b.c.d clients of a dual-stack listener are refused by an IPv4 list: fail closed)",
 ]
-TRUSTED = ["modelled: extensions/src/lib.rs ip_allow, hide (no template), cache, download, mount_all; src/extensions.rs resolve_present; src/lib.rs "
-           "get_response/handle_request file path + handle_cache (Model/Cache.v); std Path::extension, IpAddr::from_str (IPv4 part), "
-           "ClientCachePreference/ServerCachePreference::from_str; Model/PresentLine.v (C16) for the '!> ' line; Model/PathSan.v (C01) for decoding/sanitize"]
-LEVEL_TEXT = ("Coq theorem guarded_content_confined over the model of the repaired code (file-serving path + Present directives + response "
-              "cache): for every file system in which a secret byte string occurs only inside guarded files, every history of requests / clears / "
-              "waits from the empty cache (any raw percent-encoded paths, queries, methods, headers, client addresses, in any order), response cache "
-              "on or off, any negotiation outcome and vary rules, a reply (body sent or identity body) contains the secret only if the request's "
-              "decoded path is a file whose line has allow-ips and no hide, that is not *.private, and whose every allow-ips directive lists the "
-              "request's own client address (reply_ok_meaning). Proof: per-request decision of the layer below the cache + inductive cache invariant "
-              "(no stored variant contains the secret; no key belongs to a raw path that can produce it - needed because a variant push stores "
-              "without consulting the server preference) using allow_ips_never_stored (allow-ips forces preference None whatever cache directives "
-              "surround it). spelling_decodes / ext_lookup_spelling_independent: every subset-of-positions, either-hex-case encoding denotes the same "
-              "file and the same extension lookup. The statement is refuted for the code before the two fix: commits (private_spelling_v0_refuted, "
-              "cache_directive_v0_refuted; both reproduced on the real code first). Tied to the repaired /repo by the differential run with a "
-              "secret-marker oracle that does not depend on the model.")
+TRUSTED = ["modelled: extensions/src/lib.rs ip_allow, hide (incl. a templated 404 page), cache, download, templates (Model/Templates.v, C02), mount_all; "
+           "src/extensions.rs resolve_present; src/error.rs default (errors/<code>.html or the hard-coded page); src/lib.rs get_response/"
+           "handle_request file path and the CORS denial route + handle_cache in full (Model/CacheX.v, C03/C04); src/read.rs file / file_cached "
+           "(file cache as a map with negative entries); std Path::extension, core::net::parser IpAddr::from_str (IPv4 and IPv6, Rust 1.95), "
+           "ClientCachePreference/ServerCachePreference::from_str; Model/PresentLine.v (C16) for the '!> ' line; Model/PathSan.v (C01) for "
+           "decoding/sanitize"]
+LEVEL_TEXT = ("Coq theorem guarded_content_confined over the model of the repaired code (file-serving path + Present directives incl. '!> tmpl' + error "
+              "pages with lines of their own + CORS denial route + the response cache of Model/CacheX.v): for every file system in which a secret "
+              "byte string occurs only inside guarded files, every history of requests / clears / waits from the empty cache (any raw "
+              "percent-encoded paths, queries, methods, headers, client addresses - every IPv4 and IPv6 address -, in any order), response cache on "
+              "or off, any status filter, any negotiation outcome, vary rules, rewriting and overriding Prime extensions, a reply (body sent or "
+              "identity body) contains the secret only if the request's decoded path is a file whose line has allow-ips and no hide, that is not "
+              "*.private, and whose every allow-ips directive lists the request's own client address (reply_ok_meaning). Proof: per-request decision "
+              "of the layer below the cache (an answer with the secret is an answer to a permitted request AND has server preference None, "
+              "whatever cache directives surround allow-ips) + inductive cache invariant (what was admitted carries no secret). "
+              "file_cache_transparent + guarded_content_confined_with_file_cache: the same with the file cache as state, for any initial content "
+              "(stale, negative entries), any fills, on or off - 'content of a file' is what the server holds for its path. refused_reply_is_404: in "
+              "every history the reply to a request for a hidden / private / not-listed file is the host's 404 page as served for a path that does "
+              "not exist (or 304 of that cached 404, or 406) - also through the cache; hidden_file_indistinguishable_from_absent: removing plainly "
+              "hidden files changes no observation (status, headers, bodies, last-modified, hit or miss) of any history. guarded_answer_is_404 "
+              "below the cache; spelling_decodes / ext_lookup_spelling_independent: every subset-of-positions, either-hex-case encoding denotes the "
+              "same file and the same extension lookup. Refuted for the code before the three fix: commits (private_spelling_v0_refuted, "
+              "cache_directive_v0_refuted, error_page_line_v0_refuted; each reproduced on the real code first) and for the two known classes on the "
+              "faithful model (tmpl_names_guarded_file_refuted, allow_404_template_refuted). Tied to the repaired /repo by the differential run "
+              "with oracles that do not depend on the model (marker, refused-vs-absent twins, wire-level judge, pushed responses).")
 LEVEL_NOTE = ("Trusted: Coq kernel; extraction (sample re-checked in-kernel); hand transcription validated by the differential run; "
-              "fs / error pages / negotiation / vary as section variables with the stated hypotheses. No axioms.")
-TECHNIQUE = "Coq proof (cache invariant over all histories + per-request decision) + differential correspondence on kvarn::handle_cache with secret-marker oracle"
+              "fs / error pages / template engine / negotiation / vary / Prime extensions as section variables with the stated hypotheses; Range, "
+              "HEAD and the rest of SendKind::send are not modelled (range_of_clean_body_clean + the wire-level oracle). No axioms. All 21 "
+              "statements are pinned (driver/props/pins/C17.json).")
+TECHNIQUE = ("Coq proof (cache invariants over all histories + per-request decision + simulation for the file cache) + differential correspondence on "
+             "kvarn::handle_cache with secret-marker, refused-vs-absent and wire-level oracles")
 
 REPORT = [b"cache-control", b"?last-modified"]
 HEX_U = "0123456789ABCDEF"
 HEX_L = "0123456789abcdef"
+
+
+# ----------------------------------------------------------------------------------
+# client addresses: an int n < 65536 = 10.0.(n/256).(n%256); (4, v) / (6, v) = the IPv4 / IPv6 address with the value v
+# ----------------------------------------------------------------------------------
+def V4(text):
+    return (4, int(ipaddress.IPv4Address(text)))
+
+
+def V6(text):
+    return (6, int(ipaddress.IPv6Address(text)))
+
+
+def xaddr(a):
+    return xn(a) if isinstance(a, int) else xl(xn(a[0]), xn(a[1]))
+
+
+def py_ip(a):
+    """the address of an operation (xval form) as an ipaddress object"""
+    if a[0] == "N":
+        n = a[1]
+        return ipaddress.ip_address("10.0.%d.%d" % ((n // 256) % 256, n % 256))
+    kind, v = a[1][0][1], a[1][1][1]
+    return ipaddress.IPv4Address(v) if kind == 4 else ipaddress.IPv6Address(v)
+
+
+def greq(target, method=b"GET", addr=1, headers=(), body=b""):
+    return xl(xn(0), xaddr(addr), xb(method), xb(target), xlist([xl(xb(k), xb(v)) for k, v in headers]), xb(body))
+
+
+def wreq(target, method, addr, headers, allow, twin):
+    """request of a guards.wire history: allow = file whose marker the answer may carry (b"" = none), twin = 0 | 1 + index"""
+    return xl(xn(0), xaddr(addr), xb(method), xb(target), xlist([xl(xb(k), xb(v)) for k, v in headers]), xb(allow), xn(twin))
 
 
 # ----------------------------------------------------------------------------------
@@ -131,6 +188,37 @@ NEAR_MISS_LINES = [
     b"!> allow-ips +10.0.0.1",
     b"!> allow-ips 10.0.0.1x &> cache server:full",
     b"!> allow-ips 10.0.00.1",
+    b"!> allow-ips ::10.0.0.1 &> cache server:full",
+    b"!> allow-ips [10.0.0.1]",
+]
+# IPv6 arguments: (line, a listed client)
+V6_LINES = [
+    (b"!> allow-ips ::1", V6("::1")),
+    (b"!> allow-ips ::ffff:10.0.0.1 &> cache server:full", V6("::ffff:10.0.0.1")),
+    (b"!> allow-ips 2001:db8::1 10.0.0.1", V6("2001:db8::1")),
+    (b"!> allow-ips 2001:DB8:0:0:0:0:0:1", V6("2001:db8::1")),
+    (b"!> allow-ips 2001:db8::0001 &> cache server:full", V6("2001:db8::1")),
+    (b"!> allow-ips ::ffff:a00:1", V6("::ffff:10.0.0.1")),
+    (b"!> allow-ips 0:0:0:0:0:ffff:10.0.0.1", V6("::ffff:10.0.0.1")),
+    (b"!> allow-ips 1:2:3:4:5:6:7:8 &> cache server:full", V6("1:2:3:4:5:6:7:8")),
+    (b"!> allow-ips 1:2:3:4:5:6:7:: 1::8", V6("1:2:3:4:5:6:7:0")),
+    (b"!> allow-ips 1:2:3:4:5:6:77.88.99.11", V6("1:2:3:4:5:6:4d58:630b")),
+    (b"!> allow-ips :: ", V6("::")),
+    (b"!> allow-ips fe80::1 &> allow-ips fe80::1 fe80::2", V6("fe80::1")),
+    # forms that do not parse (or parse differently): nobody is listed by them
+    (b"!> allow-ips 2001:db8::1:: &> cache server:full", None),
+    (b"!> allow-ips 1:2:3:4:5:6:7:8:9", None),
+    (b"!> allow-ips ::ffff:10.0.0.1/128", None),
+    (b"!> allow-ips [::1]", None),
+    (b"!> allow-ips :::1", None),
+    (b"!> allow-ips 2001:db8:::1", None),
+    (b"!> allow-ips 12345::1", None),
+    (b"!> allow-ips ::g", None),
+    (b"!> allow-ips 1.2.3.4::", None),
+    (b"!> allow-ips ::ffff:10.0.0.01", None),
+    (b"!> allow-ips 1::2::3", None),
+    (b"!> allow-ips ::1.2.3.4:5", None),
+    (b"!> allow-ips 1:2:3:4:5:6:7", None),
 ]
 HIDE_LINES = [
     b"!> hide",
@@ -140,19 +228,33 @@ HIDE_LINES = [
     b"!> hide &> allow-ips 10.0.0.1",
     b"!> allow-ips 10.0.0.1 &> hide &> cache server:full",
     b"!> hide now",
+    b"!> hide &> unknown-ext a b",
+    b"!> hide &> cache client:1s",
 ]
 PLAIN_LINES = [None, b"!> cache server:none", b"!> cache client:60s", b"!> download", b"!> cache server:full client:none", b"hello !> hide"]
 ADDRS = [1, 1, 2, 3, 11, 256, 257]
+# clients that are on no list of the fixture: other IPv4 addresses, IPv6 addresses, and forms of 10.0.0.1 that are not 10.0.0.1
+STRANGERS = [2, 3, 11, 256, 257, V4("192.168.1.7"), V4("1.0.0.10"), V4("127.0.0.1"), V4("255.255.255.255"), V4("0.0.0.0"),
+             V6("::ffff:10.0.0.1"), V6("::10.0.0.1"), V6("64:ff9b::10.0.0.1"), V6("2002:a00:1::"), V6("::1"), V6("fe80::1"),
+             V6("2001:db8::2"), V6("ffff:ffff:ffff:ffff:ffff:ffff:ffff:ffff"), V6("a00:1::")]
+# the same client written with the extended forms
+SAME_AS_1 = [1, V4("10.0.0.1")]
+# (errors/404.html, is it free of an extension line?)
+ERR404 = [(None, True), (None, True), (None, True), (b"<html><body>custom PUBLIC:404 page</body></html>", True),
+          (b"!> cache client:none\n<html>PUBLIC:404 with a line</html>", False),
+          (b"!> cache server:none client:changing\r\n<html>PUBLIC:404 crlf</html>", False),
+          (b"!> unknown-ext\n<html>PUBLIC:404 with an idle line</html>", False),
+          (b"!> tmpl err\n<html>PUBLIC:404 $[title] template</html>", False)]
 
 
-def fixture(rng, rich=True):
-    """returns (files xval list, targets: list of (url path bytes, kind))"""
+def fixture(rng, rich=True, err=None):
+    """returns (files xval list, targets: list of (url path bytes, kind, rel, listed client, line), error pages free of lines?)"""
     files = []
     targets = []
 
-    def add(rel, line, guarded, crlf=False, kind="plain", pad=None):
+    def add(rel, line, guarded, crlf=False, kind="plain", pad=None, listed=1):
         files.append(xl(xb(b"public/" + rel), xb(content(line, rel, rng, guarded, crlf, rng.random() < 0.7 if pad is None else pad))))
-        targets.append((b"/" + rel, kind))
+        targets.append((b"/" + rel, kind, rel, listed, line))
 
     add(rng.choice([b"s.private", b"key.private", b"a.b.private", b"..private"]), rng.choice(PLAIN_LINES[:5]), True, kind="private")
     add(b"d/" + rng.choice([b"k.private", b"x.private"]), rng.choice([None, b"!> cache server:full", b"!> allow-ips 10.0.0.1"]), True, kind="private")
@@ -161,15 +263,27 @@ def fixture(rng, rich=True):
     add(rng.choice([b"n.txt", b"nm"]), rng.choice(NEAR_MISS_LINES), True, kind="allow")
     add(rng.choice([b"h.txt", b"h", b"d/h.css"]), rng.choice(HIDE_LINES), True, crlf=rng.random() < 0.15, kind="hide")
     if rich:
+        line6, who = rng.choice(V6_LINES)
+        add(rng.choice([b"six.txt", b"d/six"]), line6, True, kind="allow", listed=who if who is not None else V6("::1"))
         add(b"e/index.html", rng.choice(ALLOW_LINES[:9] + HIDE_LINES[:3]), True, kind="redirect")
-        targets[-1] = (b"/e/", "redirect")
+        targets[-1] = (b"/e/",) + targets[-1][1:]
         add(b"r.html", rng.choice(ALLOW_LINES[:9] + HIDE_LINES[:3]), True, kind="redirect")
-        targets[-1] = (b"/r.", "redirect")
+        targets[-1] = (b"/r.",) + targets[-1][1:]
         add(b"p.txt", rng.choice(PLAIN_LINES), False, kind="plain")
         add(rng.choice([b"x.PRIVATE", b"x.privat", b"x.private2", b"private"]), None, False, kind="plain")
         if rng.random() < 0.3:
             add(b".private", None, False, kind="plain")
-    return files, targets
+    e404, plain_err = rng.choice(ERR404) if err is None else err
+    if e404 is not None:
+        files.append(xl(xb(b"errors/404.html"), xb(e404)))
+        if b"tmpl err" in e404:
+            files.append(xl(xb(b"templates/err"), xb(b"$[title]\nPUBLIC:not found\n$[other]\nx\n")))
+    if rich and rng.random() < 0.15:
+        files.append(xl(xb(b"errors/416.html"), xb(rng.choice([b"<html>PUBLIC:416</html>", b"!> cache server:full\n<html>PUBLIC:416 line</html>"]))))
+        plain_err = False
+    if rich and rng.random() < 0.1:
+        files.append(xl(xb(b"errors/406.html"), xb(b"!> hide\n<html>PUBLIC:406</html>")))
+    return files, targets, plain_err
 
 
 # ----------------------------------------------------------------------------------
@@ -200,43 +314,88 @@ def dot_masks(path):
 
 
 def structural(path, rng):
+    """spellings that do NOT denote the file (or only on a server that decodes twice / cuts the name short / normalises)"""
     p = path
+    twice = p.replace(b".", b"%252E").replace(b"p", b"%2570", 1)
     return rng.choice([p + b"/", p + b"/.", p + b"%00", p + b"%ff", p + b"%2F", b"/" + p, p.replace(b"/", b"//", 2)[1:] if p.count(b"/") > 1 else p + b".",
-                       (p[:-1] + bytes([p[-1] ^ 0x20]) if p[-1:].isalpha() else p + b"~"), p + b"%20", p.upper(), b"/%2e/" + p[1:], b"/x/%2e%2e" + p, p + b"/..", p + b"?"])
+                       (p[:-1] + bytes([p[-1] ^ 0x20]) if p[-1:].isalpha() else p + b"~"), p + b"%20", p.upper(), b"/%2e/" + p[1:], b"/x/%2e%2e" + p, p + b"/..", p + b"?",
+                       twice, twice, p.replace(b".", b"%25252e"), p + b"%", p + b"%zz", p + b"%2", p.replace(b".", b"%C0%AE"), p + b";x", p + b";", b"/%2F" + p[1:],
+                       p + b"%23", p + b"%3F", p + b"%00.txt", p + b"%5C", p + b"%0a", p + b"%25", p + b"%2e", p + b"\\"])
+
+
+LISTED_TEXT = [b"10.0.0.1", b"::1", b"::ffff:10.0.0.1", b"2001:db8::1"]
+
+
+def is_private_name(rel):
+    base = rel.rsplit(b"/", 1)[-1]
+    return base.endswith(b".private") and len(base) > len(b".private")
+
+
+def fwd(rng):
+    """headers by which a client could CLAIM an address: they must not count"""
+    a = rng.choice(LISTED_TEXT)
+    return rng.choice([[(b"x-forwarded-for", a)], [(b"forwarded", b"for=" + a)], [(b"x-real-ip", a)], [(b"client-ip", a)], [(b"x-client-ip", a), (b"via", b"1.1 " + a)],
+                       [(b"x-forwarded-for", a + b", 10.0.0.2"), (b"x-forwarded-host", b"localhost")], [(b"cf-connecting-ip", a), (b"true-client-ip", a)],
+                       [(b"x-forwarded-for", a), (b"forwarded", b"for=\"" + a + b"\";proto=http"), (b"x-real-ip", a), (b"client-ip", a)]])
 
 
 HDR_SETS = [[], [], [], [(b"accept-encoding", b"gzip")], [(b"accept-encoding", b"br, gzip;q=0.5")], [(b"accept-encoding", b"zstd")],
             [(b"accept-encoding", b"identity")], [(b"range", b"bytes=0-9")], [(b"range", b"bytes=3-")], [(b"range", b"bytes=9-2")],
             [(b"range", b"bytes=0-0"), (b"accept-encoding", b"gzip")], [(b"x-v", b"A")], [(b"x-v", b"b")], [(b"x-v", b"B"), (b"accept-encoding", b"br")],
-            [(b"if-modified-since", b"@T+100")], [(b"if-modified-since", b"@T-100")], [(b"if-modified-since", b"yesterday"), (b"x-v", b"a")]]
+            [(b"if-modified-since", b"@T+100")], [(b"if-modified-since", b"@T-100")], [(b"if-modified-since", b"yesterday"), (b"x-v", b"a")],
+            [(b"origin", b"http://elsewhere.test")], [(b"origin", b"http://localhost")], [(b"range", b"bytes=-5")]]
+# (Accept-Encoding values that refuse every coding - 406 - are sent in the wire histories only: negotiation is abstract in the model)
+HAS_IMS = lambda h: any(k == b"if-modified-since" for k, _ in h)
 
 
-def history(rng, spellings, extra_addrs=3, methods=True):
-    """listed address first, then others, per spelling; then a mixed tail"""
+def history(rng, spellings, extra_addrs=3, methods=True, twins=None, base=0):
+    """per spelling: a listed address first, then others (also with forwarded-address headers), then the same request for a path that
+    does not exist (a twin: [index of a refused request, index of the request for the absent path, compare the headers too?])
+    spellings: (spelling, target or None)"""
     ops = []
-    for sp in spellings:
+    absent = 0
+    for sp, tgt in spellings:
         q = rng.choice([b"", b"", b"", b"?x=1", b"?"])
         h = rng.choice(HDR_SETS)
         m = b"GET" if not methods or rng.random() < 0.8 else rng.choice([b"HEAD", b"HEAD", b"POST"])
-        ops.append(pipe.req(sp + q, method=m, addr=1, headers=h))
+        listed = tgt[3] if tgt is not None else 1
+        if listed == 1:
+            listed = rng.choice(SAME_AS_1)
+        ops.append(greq(sp + q, method=m, addr=listed, headers=h))
         for _ in range(extra_addrs):
-            a = rng.choice(ADDRS[2:])
+            a = rng.choice(ADDRS[2:]) if rng.random() < 0.6 else rng.choice(STRANGERS)
             q2 = q if rng.random() < 0.7 else rng.choice([b"", b"?x=1", b"?y"])
-            ops.append(pipe.req(sp + q2, method=rng.choice([b"GET", b"GET", b"GET", b"HEAD"]), addr=a, headers=rng.choice([h, h, rng.choice(HDR_SETS)])))
+            h2 = rng.choice([h, h, rng.choice(HDR_SETS)])
+            if rng.random() < 0.3:
+                h2 = h2 + fwd(rng)
+            m2 = rng.choice([b"GET", b"GET", b"GET", b"HEAD"])
+            ops.append(greq(sp + q2, method=m2, addr=a, headers=h2))
+            # the twin: the same client asks, in the same way, for a path that does not exist
+            if twins is not None and tgt is not None and not HAS_IMS(h2) and rng.random() < 0.6:
+                hidden, allow = _py_guard(tgt[2], tgt[4] + b"\n" if tgt[4] else b"")
+                if hidden or (allow is not None and py_ip(xaddr(a)) not in allow):
+                    absent += 1
+                    # (every path named *.private is answered by hide, whether the file exists or not: the twin of a private file is
+                    # a *.private path too, else a CORS denial or a 416 of the twin would differ without telling anything)
+                    ext = b".private" if is_private_name(tgt[2]) else rng.choice([b".txt", b"", b".html"])
+                    ops.append(greq(b"/zz-none-%d" % absent + ext + q2, method=m2, addr=a, headers=h2))
+                    plain_hidden = tgt[1] == "private" and tgt[4] is None or tgt[4] in (b"!> hide", b"!> hide now", b"!> hide &> unknown-ext a b")
+                    twins.append((base + len(ops) - 2, base + len(ops) - 1, "H" if plain_hidden else "h" if hidden else "a"))
         if rng.random() < 0.3:
-            ops.append(pipe.req(sp + q, addr=1, headers=rng.choice(HDR_SETS)))
+            ops.append(greq(sp + q, addr=listed, headers=rng.choice(HDR_SETS)))
         r = rng.random()
         if r < 0.08:
             ops.append(pipe.clear_page(sp + rng.choice([b"", q])))
-            ops.append(pipe.req(sp + q, addr=rng.choice(ADDRS[2:]), headers=h))
+            ops.append(greq(sp + q, addr=rng.choice(ADDRS[2:]), headers=h))
         elif r < 0.11:
             ops.append(pipe.clear_all())
-            ops.append(pipe.req(sp + q, addr=rng.choice(ADDRS[2:]), headers=h))
+            ops.append(greq(sp + q, addr=rng.choice(ADDRS[2:]), headers=h))
     return ops
 
 
-def mk(rng, files, ops, kind, vary=None, both=True, cache=None, fcache=None, default_ext=None):
+def mk(rng, files, ops, kind, vary=None, both=True, cache=None, fcache=None, default_ext=None, twins=(), plain_err=True, seed=()):
     out = []
+    tmpl404 = any(f[1][0][1] == b"errors/404.html" and f[1][1][1].startswith(b"!> tmpl ") for f in files)
     caches = (True, False) if both else (rng.random() < 0.85 if cache is None else cache,)
     de = rng.random() < 0.35 if default_ext is None else default_ext
     for c in caches:
@@ -244,76 +403,225 @@ def mk(rng, files, ops, kind, vary=None, both=True, cache=None, fcache=None, def
         kind = kind + ("/default-ext" if de and "/default-ext" not in kind else "")
         if vary:
             kw["vary"] = vary
+        if seed:
+            # what the file cache holds before the first request: (path relative to the host directory, content | None = "no such file")
+            kw["fcache_seed"] = [xl(xb(p_), xl() if c_ is None else xl(xb(c_))) for p_, c_ in seed]
+        if twins:
+            # (refused request, request for a path that does not exist, compare cache-control / last-modified too)
+            # 0: compare status and bodies; 1: cache-control / last-modified presence too (nothing but hide / *.private marks the file and
+            # the error pages have no line); 2: status only (the property text asks the host's 404 of hide / *.private; what allow-ips
+            # puts in place of the file is the 404 page as it is, not rendered when it is a '!> tmpl' template)
+            kw["twins"] = [xl(xn(i), xn(j), xn(1 if k == "H" and plain_err else 2 if k == "a" and tmpl404 else 0)) for i, j, k in twins]
         out.append(Case("guards.run", pipe.scenario(pipe.cfg(**kw), ops), "guards.spec", {"kind": kind + ("/cache" if c else "/nocache")}))
     return out
 
 
+W_FILES = lambda: [xl(xb(b"public/secret.private"), xb(b"SECRET:secret.private:000001; top secret")),
+                   xl(xb(b"public/ac.txt"), xb(b"!> allow-ips 10.0.0.1 &> cache server:full\nSECRET:ac.txt:000002; listed only")),
+                   xl(xb(b"public/ca.txt"), xb(b"!> cache server:full &> allow-ips 10.0.0.1\nSECRET:ca.txt:000003; listed only")),
+                   xl(xb(b"public/a.txt"), xb(b"!> allow-ips 10.0.0.1\nSECRET:a.txt:000004; listed only")),
+                   xl(xb(b"public/h.txt"), xb(b"!> hide\nSECRET:h.txt:000005; nobody")),
+                   xl(xb(b"public/p.txt"), xb(b"PUBLIC:p.txt:000006; everybody")),
+                   xl(xb(b"public/v6.txt"), xb(b"!> allow-ips ::ffff:10.0.0.1 2001:db8::1\nSECRET:v6.txt:000007; two IPv6 clients")),
+                   xl(xb(b"public/dl.txt"), xb(b"!> allow-ips 10.0.0.1 &> download &> unknown-ext &> cache server:full\nSECRET:dl.txt:000013; listed only"))]
+
+
 def witnesses(rng):
-    """the two repaired defects and close relatives, as fixed corpus"""
+    """the repaired defects and close relatives, as fixed corpus"""
     cases = []
-    files = [xl(xb(b"public/secret.private"), xb(b"SECRET:secret.private:000001; top secret")),
-             xl(xb(b"public/ac.txt"), xb(b"!> allow-ips 10.0.0.1 &> cache server:full\nSECRET:ac.txt:000002; listed only")),
-             xl(xb(b"public/ca.txt"), xb(b"!> cache server:full &> allow-ips 10.0.0.1\nSECRET:ca.txt:000003; listed only")),
-             xl(xb(b"public/a.txt"), xb(b"!> allow-ips 10.0.0.1\nSECRET:a.txt:000004; listed only")),
-             xl(xb(b"public/h.txt"), xb(b"!> hide\nSECRET:h.txt:000005; nobody")),
-             xl(xb(b"public/p.txt"), xb(b"PUBLIC:p.txt:000006; everybody"))]
-    cases += mk(rng, files, [pipe.req(b"/secret.private"), pipe.req(b"/secret%2Eprivate"), pipe.req(b"/secret%2eprivate"),
-                             pipe.req(b"/secret.%70rivate"), pipe.req(b"/%73ecret%2E%70%72%69%76%61%74%65", addr=2)], "corpus/private-spelling")
-    cases += mk(rng, files, [pipe.req(b"/ac.txt", addr=1), pipe.req(b"/ac.txt", addr=2), pipe.req(b"/ac.txt", addr=1),
-                             pipe.req(b"/ac.txt", addr=3, method=b"HEAD"), pipe.req(b"/ac.txt?x=1", addr=2)], "corpus/allow-then-cache")
-    cases += mk(rng, files, [pipe.req(b"/ac.txt", addr=2), pipe.req(b"/ac.txt", addr=1), pipe.req(b"/ac.txt", addr=2)], "corpus/allow-then-cache")
-    cases += mk(rng, files, [pipe.req(b"/ca.txt", addr=1), pipe.req(b"/ca.txt", addr=2), pipe.req(b"/a.txt", addr=1), pipe.req(b"/a.txt", addr=2),
-                             pipe.req(b"/a%2Etxt", addr=1), pipe.req(b"/a%2Etxt", addr=11), pipe.req(b"/h.txt", addr=1), pipe.req(b"/h%2etxt", addr=1),
-                             pipe.req(b"/p.txt", addr=9), pipe.req(b"/p.txt", addr=9)], "corpus/basics")
+    files = W_FILES()
+    cases += mk(rng, files, [greq(b"/secret.private"), greq(b"/secret%2Eprivate"), greq(b"/secret%2eprivate"),
+                             greq(b"/secret.%70rivate"), greq(b"/%73ecret%2E%70%72%69%76%61%74%65", addr=2)], "corpus/private-spelling")
+    cases += mk(rng, files, [greq(b"/ac.txt", addr=1), greq(b"/ac.txt", addr=2), greq(b"/ac.txt", addr=1),
+                             greq(b"/ac.txt", addr=3, method=b"HEAD"), greq(b"/ac.txt?x=1", addr=2)], "corpus/allow-then-cache")
+    cases += mk(rng, files, [greq(b"/ac.txt", addr=2), greq(b"/ac.txt", addr=1), greq(b"/ac.txt", addr=2)], "corpus/allow-then-cache")
+    cases += mk(rng, files, [greq(b"/ca.txt", addr=1), greq(b"/ca.txt", addr=2), greq(b"/a.txt", addr=1), greq(b"/a.txt", addr=2),
+                             greq(b"/a%2Etxt", addr=1), greq(b"/a%2Etxt", addr=11), greq(b"/h.txt", addr=1), greq(b"/h%2etxt", addr=1),
+                             greq(b"/p.txt", addr=9), greq(b"/p.txt", addr=9)], "corpus/basics")
+    # directives between allow-ips and a later cache directive must not lose the lock on the server cache preference
+    cases += mk(rng, files, [greq(b"/dl.txt", addr=1), greq(b"/dl.txt", addr=2), greq(b"/dl.txt", addr=V6("::ffff:10.0.0.1")), greq(b"/dl.txt", addr=1)],
+                "corpus/allow-download-cache")
     vary = [pipe.vary_rule(b"/ac.txt", [(b"x-v", 0, b"-")]), pipe.vary_rule(b"/h.txt", [(b"x-v", 0, b"-")])]
-    cases += mk(rng, files, [pipe.req(b"/ac.txt", addr=2, headers=[(b"x-v", b"a")]), pipe.req(b"/ac.txt", addr=1, headers=[(b"x-v", b"b")]),
-                             pipe.req(b"/ac.txt", addr=2, headers=[(b"x-v", b"b")]), pipe.req(b"/h.txt", headers=[(b"x-v", b"a")]),
-                             pipe.req(b"/h.txt", headers=[(b"x-v", b"b")]), pipe.req(b"/h.txt", headers=[(b"x-v", b"b")])], "corpus/vary-push", vary=vary)
+    cases += mk(rng, files, [greq(b"/ac.txt", addr=2, headers=[(b"x-v", b"a")]), greq(b"/ac.txt", addr=1, headers=[(b"x-v", b"b")]),
+                             greq(b"/ac.txt", addr=2, headers=[(b"x-v", b"b")]), greq(b"/h.txt", headers=[(b"x-v", b"a")]),
+                             greq(b"/h.txt", headers=[(b"x-v", b"b")]), greq(b"/h.txt", headers=[(b"x-v", b"b")])], "corpus/vary-push", vary=vary)
+    # a cached 404 of a hidden page and a conditional request of ANOTHER variant (no 304 for what is not stored)
+    cases += mk(rng, files, [greq(b"/h.txt", headers=[(b"x-v", b"a")]), greq(b"/h.txt", addr=2, headers=[(b"if-modified-since", b"@T+100")]),
+                             greq(b"/h.txt", addr=2, headers=[(b"if-modified-since", b"@T+100"), (b"x-v", b"A")])], "corpus/ims-variant", vary=vary)
+    # the third repaired defect: errors/404.html with an extension line of its own
+    for e404 in (b"!> cache client:none\n<html>PUBLIC:custom 404</html>", b"!> unknown-ext\r\n<html>PUBLIC:custom 404</html>", b"<html>PUBLIC:plain custom 404</html>",
+                 b"!> tmpl err\n<html>PUBLIC:templated 404 $[title]</html>"):
+        f2 = files + [xl(xb(b"errors/404.html"), xb(e404)), xl(xb(b"templates/err"), xb(b"$[title]\nPUBLIC:not found\n"))]
+        ops = [greq(b"/secret.private", addr=2), greq(b"/nothing-here", addr=2), greq(b"/h.txt", addr=2), greq(b"/nothing-here", addr=2),
+               greq(b"/a.txt", addr=2), greq(b"/nothing-here.txt", addr=2), greq(b"/a.txt", addr=1), greq(b"/zz.private", addr=2), greq(b"/secret.private", addr=2)]
+        cases += mk(rng, f2, ops, "corpus/error-page-line", twins=[(0, 1, "h"), (2, 3, "H"), (4, 5, "a"), (0, 7, "H")], plain_err=e404.startswith(b"<"))
+    # IPv4 / IPv6 / IPv4-mapped clients against IPv4 and IPv6 lists; claimed addresses in headers
+    ops = [greq(b"/a.txt", addr=V6("::ffff:10.0.0.1")), greq(b"/a.txt", addr=V4("10.0.0.1")), greq(b"/a.txt", addr=V6("::10.0.0.1")),
+           greq(b"/v6.txt", addr=V6("::ffff:10.0.0.1")), greq(b"/v6.txt", addr=1), greq(b"/v6.txt", addr=V6("2001:db8::1")), greq(b"/v6.txt", addr=V6("2001:db8::2")),
+           greq(b"/a.txt", addr=2, headers=[(b"x-forwarded-for", b"10.0.0.1"), (b"forwarded", b"for=10.0.0.1"), (b"x-real-ip", b"10.0.0.1")]),
+           greq(b"/v6.txt", addr=V6("::1"), headers=[(b"x-forwarded-for", b"2001:db8::1"), (b"client-ip", b"::ffff:10.0.0.1")])]
+    cases += mk(rng, files, ops, "corpus/address-families")
+    # double decoding, invalid escapes, parameters
+    cases += mk(rng, files, [greq(t, addr=a) for a in (1, 2) for t in
+                             (b"/secret%252Eprivate", b"/secret.private%00", b"/secret.private%", b"/secret.private%zz", b"/secret.private;x", b"/secret%C0%AEprivate",
+                              b"/a%252Etxt", b"/a.txt%00", b"/a.txt;x", b"/h%252Etxt", b"/h.txt%2F", b"/h.txt%25")], "corpus/odd-spellings")
+    return cases
+
+
+def known_tmpl(rng):
+    """KNOWN class tmpl-names-guarded-file: a PUBLIC page whose '!> tmpl' argument names a guarded file pulls that file's $[name] blocks in"""
+    files = [xl(xb(b"public/s.private"), xb(b"$[x]\nSECRET:s.private:000008; a block of a private file\n$[y]\nmore")),
+             xl(xb(b"public/t.html"), xb(b"!> tmpl ../public/s.private\n<html>PUBLIC:t.html:000009; $[x]</html>")),
+             xl(xb(b"templates/main"), xb(b"$[title]\nPUBLIC:a template\n"))]
+    return [Case("guards.run", pipe.scenario(pipe.cfg(cache=True, fcache=True, files=files, report=[xb(r) for r in REPORT], default_ext=False),
+                                              [greq(b"/t.html", addr=2), greq(b"/s.private", addr=2)]), "guards.spec", {"kind": "known/tmpl-include"})]
+
+
+def wire_cases(rng, n):
+    """histories on the wire (what SendKind::send wrote): Range slices, HEAD, content-length; judged inside the harness"""
+    cases = []
+    for i in range(n):
+        files, targets, plain_err = fixture(rng, rich=False, err=rng.choice(ERR404[:7]))
+        ops = []
+        for path, kind, rel, listed, line in targets:
+            hidden, allow = _py_guard(rel, line + b"\n" if line else b"")
+            sp = path if rng.random() < 0.4 else encode(path, rng.choice(dot_masks(path)), rng)
+            for k in range(rng.randrange(2, 5)):
+                a = (rng.choice(SAME_AS_1) if listed == 1 else listed) if k == 0 else rng.choice(ADDRS[2:] + STRANGERS)
+                m = rng.choice([b"GET", b"GET", b"HEAD"])
+                h = rng.choice([[], [], [(b"range", b"bytes=0-40")], [(b"range", b"bytes=7-")], [(b"range", b"bytes=-30")], [(b"range", b"bytes=0-0")],
+                                [(b"range", b"bytes=5-5000")], [(b"accept-encoding", b"gzip")], [(b"accept-encoding", b"gzip"), (b"range", b"bytes=0-25")],
+                                [(b"range", b"bytes=20-10")], [(b"range", b"bytes=100000-")], [(b"accept-encoding", b"gzip;q=0, identity;q=0")],
+                                [(b"accept-encoding", b"*;q=0")], [(b"accept-encoding", b"identity;q=0"), (b"range", b"bytes=0-5")]])
+                if rng.random() < 0.2:
+                    h = h + fwd(rng)
+                ok = (not hidden) and allow is not None and py_ip(xaddr(a)) in allow
+                if not ok:
+                    # the same request for a path that does not exist, first; then the guarded one must equal it
+                    ext = b".private" if is_private_name(rel) else b".txt"
+                    ops.append(wreq(b"/zz-none-%d" % len(ops) + ext, m, a, h, b"", 0))
+                    # (the headers are those of a missing page only where nothing but hide / *.private marks the file)
+                    plain = (kind == "private" and line is None) or line in (b"!> hide", b"!> hide now", b"!> hide &> unknown-ext a b")
+                    ops.append(wreq(sp, m, a, h, b"", len(ops) if plain and plain_err else 0))
+                else:
+                    ops.append(wreq(sp, m, a, h, rel, 0))
+        cases.append(Case("guards.wire", pipe.scenario(pipe.cfg(cache=rng.random() < 0.8, fcache=rng.random() < 0.7, files=files, default_ext=False), ops),
+                          "guards.wire", {"kind": "wire"}))
+    return cases
+
+
+def push_cases(rng, n):
+    """HTTP/2 push (kvarn_extensions::push, mounted by mount_all): a public page links guarded files; the pushed responses are judged"""
+    cases = []
+    for i in range(n):
+        files, targets, plain_err = fixture(rng, rich=False, err=rng.choice(ERR404[:4]))
+        files.append(xl(xb(b"public/lo.txt"), xb(content(b"!> allow-ips 127.0.0.1 ::1", b"lo.txt", rng, True))))
+        files.append(xl(xb(b"public/pub.js"), xb(content(None, b"pub.js", rng, False))))
+        links = [t[0] for t in targets] + [b"/lo.txt", b"/pub.js"]
+        rng.shuffle(links)
+        page = b"<!DOCTYPE html><html><head>" + b"".join(
+            rng.choice([b'<script src="%s"></script>', b'<link rel="stylesheet" href="%s">', b"<script async src='%s'></script>"]) % (
+                l if rng.random() < 0.6 else encode(l, rng.choice(dot_masks(l)), rng)) for l in links) + b"</head><body>PUBLIC:index.html:000000;</body></html>"
+        files.append(xl(xb(b"public/index.html"), xb(page)))
+        guards = {t[2]: _py_guard(t[2], t[4] + b"\n" if t[4] else b"") for t in targets}
+        guards[b"lo.txt"] = _py_guard(b"lo.txt", b"!> allow-ips 127.0.0.1 ::1\n")
+        ops = []
+        for a in [2, 1, V4("127.0.0.1"), V6("::1"), V6("::ffff:10.0.0.1"), V6("::ffff:127.0.0.1"), rng.choice(STRANGERS), V4("10.0.0.1")]:
+            ip = py_ip(xaddr(a))
+            allowed = [rel for rel, (hidden, allow) in guards.items() if not hidden and allow is not None and ip in allow]
+            ops.append(xl(xn(0), xaddr(a), xb(b"/index.html"), xlist([xb(r) for r in allowed]), xn(2)))
+        cases.append(Case("guards.push", pipe.scenario(pipe.cfg(cache=rng.random() < 0.8, fcache=rng.random() < 0.7, files=files, default_ext=False), ops),
+                          "guards.wire", {"kind": "push"}))
+    return cases
+
+
+def expiry_cases(rng, n):
+    """entries that expire between requests (cache client:1s => max-age=1 => server lifetime 1 s); margins of 1.5 s"""
+    cases = []
+    for i in range(n):
+        files = W_FILES() + [xl(xb(b"public/x.txt"), xb(b"!> hide &> cache client:1s\nSECRET:x.txt:000010; nobody")),
+                             xl(xb(b"public/y.private"), xb(b"!> cache client:1s\nSECRET:y.private:000011; nobody")),
+                             xl(xb(b"public/z.txt"), xb(b"!> allow-ips 10.0.0.1 &> cache client:1s server:full\nSECRET:z.txt:000012; listed"))]
+        t = [b"/x.txt", b"/y.private", b"/z.txt", b"/h.txt"]
+        ops = [greq(p, addr=a) for p in t for a in (1, 2)]
+        ops += [greq(p, addr=2, headers=[(b"if-modified-since", b"@T+100")]) for p in t]
+        ops.append(pipe.wait(2600))
+        ops += [greq(p, addr=a, headers=h) for p in t for a in (2, 1) for h in ([(b"if-modified-since", b"@T+100")], [])]
+        cases += mk(rng, files, ops, "expiry", both=False, cache=True, default_ext=(i % 2 == 1))
     return cases
 
 
 def generate(rng, tier):
-    cases = witnesses(rng)
-    n = 170 if tier == "quick" else 2600
+    cases = witnesses(rng) + known_tmpl(rng)
+    n = 150 if tier == "quick" else 2400
     for i in range(n):
-        files, targets = fixture(rng)
+        files, targets, plain_err = fixture(rng)
         guarded_t = [t for t in targets if t[1] != "plain"]
+        # the file cache holds something else than the disk for some files (stale or negative entries): what counts is what the
+        # server HOLDS (theorem file_cache_transparent); such files get no refused-vs-absent twins (their line is not the disk's)
+        seed = []
+        if rng.random() < 0.15:
+            for t in rng.sample(targets, min(len(targets), rng.randrange(1, 4))):
+                rel = t[2]
+                kind_ = rng.choice(["older-guarded", "negative", "older-public"])
+                if kind_ == "older-guarded":
+                    seed.append((b"public/" + rel, content(rng.choice([b"!> hide", b"!> allow-ips 10.0.0.3", None if is_private_name(rel) else b"!> hide &> cache server:full"]),
+                                                           rel, rng, True)))
+                elif kind_ == "negative":
+                    seed.append((b"public/" + rel, None))
+                else:
+                    seed.append((b"public/" + rel, content(None, rel, rng, is_private_name(rel))))
+            if rng.random() < 0.4:
+                seed.append((b"errors/404.html", rng.choice([None, b"<html>PUBLIC:404 as the file cache holds it</html>"])))
+                if seed[-1][1] is None:
+                    seed.append((b"errors/404.html", b"<html>PUBLIC:404 inserted last</html>"))
+        seeded = {p_[len(b"public/"):] for p_, _ in seed if p_.startswith(b"public/")}
         spellings = []
         for _ in range(rng.randrange(2, 5)):
-            path, kind = rng.choice(guarded_t if rng.random() < 0.85 else targets)
+            t = rng.choice(guarded_t if rng.random() < 0.85 else targets)
+            if seed and rng.random() < 0.5:
+                t = rng.choice([x for x in targets if x[2] in seeded] or [t])
+            path = t[0]
+            if t[2] in seeded:
+                t = None
             r = rng.random()
             if r < 0.2:
-                spellings.append(path)
+                spellings.append((path, t))
             elif r < 0.5:
-                spellings.append(encode(path, rng.choice(dot_masks(path)), rng))
-            elif r < 0.85:
-                spellings.append(encode(path, rng.getrandbits(len(path) - 1), rng))
+                spellings.append((encode(path, rng.choice(dot_masks(path)), rng), t))
+            elif r < 0.8:
+                spellings.append((encode(path, rng.getrandbits(len(path) - 1), rng), t))
             else:
-                spellings.append(structural(path, rng))
+                spellings.append((structural(path, rng), None))
         vary = None
         if rng.random() < 0.35:
-            vary = [pipe.vary_rule(sp, [(b"x-v", rng.choice([0, 1]), b"-")]) for sp in sorted(set(spellings)) if rng.random() < 0.7 and b"?" not in sp]
-        ops = history(rng, spellings)
-        cases += mk(rng, files, ops, "random", vary=vary, both=(i % 3 == 0))
+            vary = [pipe.vary_rule(sp, [(b"x-v", rng.choice([0, 1]), b"-")]) for sp in sorted({s for s, _ in spellings})
+                    if rng.random() < 0.7 and b"?" not in sp and b"#" not in sp]
+        twins = []
+        ops = history(rng, spellings, twins=twins if not any(p_ == b"errors/404.html" for p_, _ in seed) else None)
+        cases += mk(rng, files, ops, "random" + ("/fcache-seed" if seed else ""), vary=vary, both=(i % 3 == 0), twins=twins, plain_err=plain_err, seed=seed,
+                    fcache=True if seed and rng.random() < 0.8 else None)
     # exhaustive subsets of positions: all 2^k subsets of the last k = min(len, cap) characters of the path
     # (for *.private that is at least the whole ".private" suffix), kinds in rotation
     nex = 3 if tier == "quick" else 36
     cap = 8 if tier == "quick" else 9
     for i in range(nex):
-        files, targets = fixture(rng, rich=False)
+        files, targets, plain_err = fixture(rng, rich=False)
         want = ("private", "allow", "hide")[i % 3]
-        path, kind = rng.choice([t for t in targets if t[1] == want])
+        t = rng.choice([t for t in targets if t[1] == want])
+        path, kind = t[0], t[1]
         ln = len(path) - 1
         k = min(ln, cap if want == "private" else 8)
         ops = []
         for sub in range(1 << k):
             sp = encode(path, sub << (ln - k), rng)
-            ops.append(pipe.req(sp, addr=1))
-            ops.append(pipe.req(sp, addr=rng.choice([2, 3, 11, 256]), method=rng.choice([b"GET", b"GET", b"HEAD"]), headers=rng.choice(HDR_SETS[:8])))
+            ops.append(greq(sp, addr=1))
+            ops.append(greq(sp, addr=rng.choice([2, 3, 11, 256]), method=rng.choice([b"GET", b"GET", b"HEAD"]), headers=rng.choice(HDR_SETS[:8])))
         cases += mk(rng, files, ops, "exhaustive-spellings/" + kind, both=False, cache=True)
     # malformed stream: token soup on the guard line
     toks = [b"allow-ips", b"hide", b"cache", b"&>", b"10.0.0.1", b"10.0.0.2", b"server:full", b"server:none", b"client:full", b"download", b"x", b"",
-            b"server:", b":full", b"server:full:none", b"client:0s", b"server:0s", b"server:5s", b"!>", b"&>hide", b"allow-ips10.0.0.1"]
+            b"server:", b":full", b"server:full:none", b"client:0s", b"server:0s", b"server:5s", b"!>", b"&>hide", b"allow-ips10.0.0.1", b"::1", b"::ffff:10.0.0.1",
+            b"unknown-ext"]
     nm = 40 if tier == "quick" else 700
     for i in range(nm):
         line = b"!> " + b" ".join(rng.choice(toks) for _ in range(rng.randrange(1, 8)))
@@ -322,9 +630,14 @@ def generate(rng, tier):
         rel = rng.choice([b"m.txt", b"m.private" if rng.random() < 0.3 else b"m"])
         hidden, allow = _py_guard(rel, line + b"\n")
         files = [xl(xb(b"public/" + rel), xb(content(line, rel, rng, hidden or allow is not None, crlf=rng.random() < 0.1)))]
-        sp = [b"/" + rel, encode(b"/" + rel, rng.getrandbits(len(rel)), rng)]
-        ops = history(rng, sp, extra_addrs=2)
-        cases += mk(rng, files, ops, "malformed-line", both=False)
+        tgt = (b"/" + rel, "soup", rel, 1, line)
+        sp = [(b"/" + rel, tgt), (encode(b"/" + rel, rng.getrandbits(len(rel)), rng), tgt)]
+        twins = []
+        ops = history(rng, sp, extra_addrs=2, twins=twins)
+        cases += mk(rng, files, ops, "malformed-line", both=False, twins=[(a, b, "a" if k == "a" else "h") for a, b, k in twins])
+    cases += wire_cases(rng, 36 if tier == "quick" else 500)
+    cases += push_cases(rng, 6 if tier == "quick" else 60)
+    cases += expiry_cases(rng, 2 if tier == "quick" else 8)
     return cases
 
 
@@ -335,13 +648,30 @@ MARK = re.compile(rb"SECRET:([^:;]*):")
 
 
 def _scenario(c):
+    """(what the server holds: path -> content, operations, twins)"""
     cfg, ops = c.x[1]
     files = {}
+    twins = []
+    seed = []
+    fcache = True
     for e in cfg[1]:
         if e[1][0][1] == b"files":
             for f in e[1][1][1]:
                 files[f[1][0][1]] = f[1][1][1]
-    return files, ops[1]
+        if e[1][0][1] == b"twins":
+            twins = [(t[1][0][1], t[1][1][1], t[1][2][1]) for t in e[1][1][1]]
+        if e[1][0][1] == b"fcache_seed":
+            seed = [(t[1][0][1], t[1][1][1][0][1] if t[1][1][1] else None) for t in e[1][1][1]]
+        if e[1][0][1] == b"fcache":
+            fcache = e[1][1][1] == 1
+    if fcache:
+        # an entry of the file cache (also a stale or a negative one) is what the server holds for the path
+        for p_, c_ in seed:
+            if c_ is None:
+                files.pop(p_, None)
+            else:
+                files[p_] = c_
+    return files, ops[1], twins
 
 
 def _markers(reply):
@@ -356,6 +686,8 @@ def _markers(reply):
 
 def spec_ok(c, impl, spec):
     """Gallina spec: a marker of file F in reply i => spec says request i is permitted and its decoded path is F."""
+    if c.comp in ("guards.wire", "guards.push"):
+        return impl == spec
     try:
         a, s = xparse(impl)[1], xparse(spec)[1]
     except Exception:
@@ -373,14 +705,50 @@ def spec_ok(c, impl, spec):
     return True
 
 
+def _canon_reply_headers(text):
+    """what the correspondence compares of the headers: the property fixes neither the text of cache-control (only that the header is there
+    or not is compared) nor whether a 404 goes through the cache (last-modified presence is compared on the other statuses); the
+    refused-vs-absent twins (real against real) compare the exact headers."""
+    try:
+        v = xparse(text)
+    except Exception:
+        return text
+    if v[0] != "L":
+        return text
+    out = []
+    for rp in v[1]:
+        if rp[0] == "L" and len(rp[1]) == 6 and rp[1][1][0] == "L":
+            status = rp[1][0][1]
+            hs = []
+            for h in rp[1][1][1]:
+                name = h[1][0][1]
+                if name == b"cache-control":
+                    hs.append(xl(xb(name), xb(b"")))
+                elif name == b"last-modified":
+                    if status != 404:
+                        hs.append(h)
+                else:
+                    hs.append(h)
+            rp = xl(rp[1][0], xlist(hs), *rp[1][2:])
+        out.append(rp)
+    return xtext(xlist(out))
+
+
+def compare(c, i, m):
+    if c.comp in ("guards.wire", "guards.push") or i == m:
+        return i == m
+    return _canon_reply_headers(i) == _canon_reply_headers(m)
+
+
 def _py_guard(rel, data):
-    """independent reading of the property text: (kind, allowed address set or None)"""
+    """independent reading of the property text: (hidden?, allowed address set or None)"""
     base = rel.rsplit(b"/", 1)[-1]
     private = base.endswith(b".private") and len(base) > len(b".private")
     hide = False
     allow = None
     nl = data.find(b"\n")
-    if data.startswith(b"!> ") and nl >= 0:
+    # (kvarn's line grammar, Properties/C16.v present_line_grammar: a first line that starts "!>  &> " is no extension line)
+    if data.startswith(b"!> ") and nl >= 0 and not data.startswith(b"!>  &> "):
         line = data[3:nl].rstrip(b"\r")
         groups, cur = [], []
         for w in line.split(b" "):
@@ -409,9 +777,14 @@ def _py_guard(rel, data):
 
 
 def extra_oracle(c, impl):
-    """model-independent: no SECRET marker in any reply unless the file is allow-ips (not hidden/private) and the address is listed"""
+    """model-independent: (1) no SECRET marker in any reply unless the file is allow-ips (not hidden/private) and the client's address (an
+    IPv4 address equals no IPv6 address) is on every list; (2) the reply to a refused request equals the reply to the same request
+    for a path that does not exist: status, decoded body, identity body (and cache-control / last-modified presence where nothing but
+    hide / *.private marks the file and the error pages carry no line of their own)"""
+    if c.comp in ("guards.wire", "guards.push"):
+        return None if impl == "(L)" else "on the wire: " + kv.pretty(xparse(impl), 700)
     try:
-        files, ops = _scenario(c)
+        files, ops, twins = _scenario(c)
         replies = xparse(impl)[1]
     except Exception:
         return None
@@ -420,8 +793,7 @@ def extra_oracle(c, impl):
     for i, (o, rp) in enumerate(zip(ops, replies)):
         if o[1][0][1] != 0:
             continue
-        addr = o[1][1][1]
-        ip = ipaddress.ip_address("10.0.%d.%d" % ((addr // 256) % 256, addr % 256))
+        ip = py_ip(o[1][1])
         for name in _markers(rp):
             data = files.get(b"public/" + name)
             if data is None:
@@ -432,10 +804,49 @@ def extra_oracle(c, impl):
             if allow is not None and ip not in allow:
                 return "reply %d (address %s, target %r) carries the content of %r whose allow-ips list is %s" % (
                     i, ip, o[1][3][1], name, sorted(map(str, allow)))
+    for i, j, level in twins:
+        if i >= len(replies) or j >= len(replies):
+            continue
+        a, b = replies[i], replies[j]
+        status_only, strict = level == 2, level == 1
+        if a[0] != "L" or b[0] != "L" or len(a[1]) != 6 or len(b[1]) != 6:
+            continue
+        what = None
+        if a[1][0] != b[1][0]:
+            what = "status %s vs %s" % (a[1][0][1], b[1][0][1])
+        elif status_only:
+            pass
+        elif a[1][2] != b[1][2] or a[1][3] != b[1][3]:
+            what = "body %r vs %r" % (a[1][2][1][:60], b[1][2][1][:60])
+        elif a[1][4] != b[1][4]:
+            what = "identity body %r vs %r" % (a[1][4][1][:60], b[1][4][1][:60])
+        elif strict and a[1][1] != b[1][1]:
+            what = "headers %s vs %s" % (kv.pretty(a[1][1], 200), kv.pretty(b[1][1], 200))
+        if what:
+            return ("reply %d (target %r, a file that is refused) differs from reply %d (target %r, a path that does not exist) for the same client: %s"
+                    % (i, ops[i][1][3][1], j, ops[j][1][3][1], what))
+    return None
+
+
+def classify(c, impl):
+    """KNOWN class: a public page whose '!> tmpl' argument names a guarded file (see known-findings.txt)"""
+    try:
+        files, ops, _ = _scenario(c)
+    except Exception:
+        return None
+    for name, data in files.items():
+        if data.startswith(b"!> tmpl ../public/") and name.startswith(b"public/"):
+            return "tmpl-names-guarded-file"
+    # KNOWN class: errors/404.html is a '!> tmpl' template and the refused file's line has an allow-ips directive (its 404 is not rendered)
+    why = c.meta.get("why", "")
+    if files.get(b"errors/404.html", b"").startswith(b"!> tmpl ") and "a file that is refused" in why and "$[" in why:
+        return "allow-ips-404-template-unrendered"
     return None
 
 
 def signature(c, m):
+    if c.comp in ("guards.wire", "guards.push"):
+        return None
     try:
         rs = xparse(m)[1]
     except Exception:
@@ -453,32 +864,41 @@ def signature(c, m):
 def directed(rng, mismatches):
     cases = witnesses(rng)
     for i in range(60):
-        files, targets = fixture(rng)
+        files, targets, plain_err = fixture(rng)
         guarded_t = [t for t in targets if t[1] != "plain"]
         sps = []
-        for path, kind in guarded_t:
-            sps.append(path)
-            sps.append(encode(path, rng.choice(dot_masks(path)), rng))
-        cases += mk(rng, files, history(rng, sps, extra_addrs=2, methods=False), "directed", both=False, cache=True, fcache=True)
+        for t in guarded_t:
+            sps.append((t[0], t))
+            sps.append((encode(t[0], rng.choice(dot_masks(t[0])), rng), t))
+        twins = []
+        ops = history(rng, sps, extra_addrs=2, methods=False, twins=twins)
+        cases += mk(rng, files, ops, "directed", both=False, cache=True, fcache=True, twins=twins, plain_err=plain_err)
     return cases
 
 
 def extra_coverage(cases, impl, model, spec):
-    nreq = served = refused = spellings = 0
+    nreq = served = refused = spellings = v6 = twins_n = wire = wire_req = 0
     seen = set()
     for c in cases:
         i = impl.get(c.id)
         if i is None:
             continue
+        if c.comp in ("guards.wire", "guards.push"):
+            wire += 1
+            wire_req += sum(1 for o in c.x[1][1][1] if o[1][0][1] == 0)
+            continue
         try:
-            _, ops = _scenario(c)
+            _, ops, tw = _scenario(c)
             rs = xparse(i)[1]
         except Exception:
             continue
+        twins_n += len(tw)
         for o, rp in zip(ops, rs):
             if o[1][0][1] != 0 or rp[0] != "L" or len(rp[1]) != 6:
                 continue
             nreq += 1
+            if o[1][1][0] == "L" and o[1][1][1][0][1] == 6:
+                v6 += 1
             t = o[1][3][1]
             if b"%" in t and t not in seen:
                 seen.add(t)
@@ -487,12 +907,13 @@ def extra_coverage(cases, impl, model, spec):
                 served += 1
             elif rp[1][0][1] == 404:
                 refused += 1
-    return {"requests": nreq, "distinct_percent_encoded_targets": spellings, "replies_with_guarded_content_to_listed_address": served,
-            "replies_404": refused}
+    return {"requests": nreq, "requests_from_ipv6_clients": v6, "distinct_percent_encoded_targets": spellings,
+            "replies_with_guarded_content_to_listed_address": served, "replies_404": refused,
+            "refused_vs_absent_pairs_compared": twins_n, "wire_histories": wire, "wire_requests": wire_req}
 
 
 def describe(c):
-    files, ops = _scenario(c)
+    files, ops, _ = _scenario(c)
     return {"component": c.comp, "kind": c.meta.get("kind"),
             "files": {k.decode("latin1"): v.split(b"\n")[0].decode("latin1")[:70] for k, v in files.items()},
             "ops": [kv.pretty(o, 100) for o in ops][:10]}
